@@ -12,9 +12,15 @@ Record obs := mkObs { ocode : Z; oret : option emode; omodes : list emode; oacti
 
 Record cop := mkCop { cop_op : op; cinv : Z; cresp : Z; ccode : Z; cret : option emode }.
 
+(* what a PullModes subscriber receives *)
+Inductive mevent := MAdd (new : emode) | MUpdate (old new : emode) | MRemove (old : emode).
+
 Inductive c19case :=
 | KSeq (initial : list emode) (o0 : obs) (steps : list (Z * op * obs))
-| KConc (initial : list emode) (now : Z) (threads : list (list cop)) (fin : obs).
+| KConc (initial : list emode) (now : Z) (threads : list (list cop)) (fin : obs)
+(* the PullModes and PullActiveMode streams (with back-pressure, so nothing is dropped) of a
+   sequential history, subscribed before the first operation *)
+| KStream (initial : list emode) (steps : list (Z * op)) (mev : list mevent) (aev : list emode).
 
 Definition emodes_eqb := list_eqb emode_eqb.
 Definition oemode_eqb := option_eqb emode_eqb.
@@ -97,6 +103,36 @@ Fixpoint lin (fuel : nat) (now : Z) (front : list cfg) (fin : state -> bool) : b
 Definition total_ops (threads : list (list cop)) : nat :=
   fold_right (fun t n => (List.length t + n)%nat) O threads.
 
+(* ---- the streams the model predicts ---- *)
+Definition mevent_eqb (a b : mevent) : bool :=
+  match a, b with
+  | MAdd x, MAdd y => emode_eqb x y
+  | MUpdate o x, MUpdate p y => emode_eqb o p && emode_eqb x y
+  | MRemove x, MRemove y => emode_eqb x y
+  | _, _ => false
+  end.
+
+(* Collection.Pull: one event per entry that differs (an operation touches one id); an update that
+   leaves the entry equal is not emitted (WithNoDuplicates) *)
+Definition modes_diff (l l' : list emode) : list mevent :=
+  flat_map (fun m => match find (mid m) l' with
+                     | None => [MRemove m]
+                     | Some m' => if emode_eqb m m' then [] else [MUpdate m m']
+                     end) l
+  ++ flat_map (fun m => if has (mid m) l then [] else [MAdd m]) l'.
+
+Fixpoint predict (s : state) (last : emode) (steps : list (Z * op)) : list mevent * list emode :=
+  match steps with
+  | [] => ([], [])
+  | (now, o) :: rest =>
+      let '(s', r) := step s now o in
+      (* Value.Pull: every successful Set publishes; equal to the last emitted value = dropped *)
+      let a := if activates o && (rcode r =? 0) && negb (emode_eqb (active s') last) then [active s'] else [] in
+      let last' := match a with x :: _ => x | [] => last end in
+      let '(me, ae) := predict s' last' rest in
+      (modes_diff (modes s) (modes s') ++ me, a ++ ae)
+  end.
+
 Definition agrees (c : c19case) : bool :=
   match c with
   | KSeq initial o0 steps =>
@@ -105,6 +141,10 @@ Definition agrees (c : c19case) : bool :=
       lin (S (total_ops threads)) now [(threads, init_state initial)]
           (fun s => emodes_eqb (modes s) (omodes fin) && emode_eqb (active s) (oactive fin)
                     && oemode_eqb (normal_of (modes s)) (onormal fin))
+  | KStream initial steps mev aev =>
+      let '(me, ae) := predict (init_state initial) blank steps in
+      (* seed values first: the stored modes in id order / the current active value *)
+      list_eqb mevent_eqb mev (map MAdd initial ++ me) && emodes_eqb aev (blank :: ae)
   end.
 
 (* ------------------------------------------------------------------ the property on observations *)
@@ -125,61 +165,76 @@ Definition delete_of (o : op) : option (string * bool) :=
    other than "nothing changes" applies *)
 Definition prevalidated (c : Z) : bool := (c =? cInvalidArgument) || (c =? cPanic).
 
-(* the clauses of C19 on one observed step: before = (pm, pa, ch), after = ob *)
-Definition step_ok (pm : list emode) (pa : emode) (ch : bool) (now : Z) (o : op) (ob : obs) : bool :=
-  let m' := omodes ob in
+(* a successful switch to the stored mode [id]: it is the active value and the returned value, its
+   start time is the clock reading unless the id was already active, the rest is the stored mode *)
+Definition sw_ok (pm : list emode) (pa : emode) (now : Z) (ob : obs) (id : string) : bool :=
   let a' := oactive ob in
-  let okc := ocode ob =? 0 in
-  (* 1. at most one mode is marked normal *)
-  (zlen (normals m') <=? 1)
-  (* 2. the active mode is never deleted *)
-  && (negb (id_in (mid pa) pm) || id_in (mid pa) m')
-  && match delete_of o with
-     | Some (id, _) => negb (String.eqb id (mid pa)) || prevalidated (ocode ob) || negb okc
-     | None => true
-     end
-  (* 3. once changed, the active mode refers to a mode that exists *)
-  && (negb (ch || (activates o && okc)) || id_in (mid a') m')
-  (* a failed call changes nothing; only activating calls change the active mode; they do not
-     change the modes *)
-  && (okc || (emodes_eqb m' pm && emode_eqb a' pa))
-  && (activates o || emode_eqb a' pa)
-  && (negb (activates o) || emodes_eqb m' pm)
-  (* only a mode that exists can be made active (SetActiveMode stores the given message) *)
-  && match o with
-     | OSetActive m => if id_in (mid m) pm then okc && emode_eqb a' m else ocode ob =? cNotFound
-     | _ => true
-     end
-  (* NormalMode() is the mode marked normal *)
-  && oemode_eqb (onormal ob) (hd_error (normals m'))
-  (* 4. clearing selects the normal mode; 5. switching to a different mode stamps the clock *)
-  && match switch_target o with
-     | None => true
-     | Some tgt =>
-         if prevalidated (ocode ob) then true else
-         let want := match tgt with
-                     | Some id => if id_in id pm then Some id else None
-                     | None => match normals pm with n :: _ => Some (mid n) | [] => None end
-                     end in
-         match want with
-         | None => ocode ob =? cNotFound
-         | Some id =>
-             okc && String.eqb (mid a') id && oemode_eqb (oret ob) (Some a')
-             && (String.eqb (mid a') (mid pa) || option_eqb Z.eqb (mstart a') (Some now))
-             (* the rest of the active value is the stored mode *)
-             && existsb (fun m => String.eqb (mid m) id && String.eqb (mtitle m) (mtitle a')
-                                  && Bool.eqb (mnormal m) (mnormal a')) pm
-         end
-     end
-  (* 6. deleting an absent mode: NotFound unless allow-missing, then success; a present,
-        inactive mode is removed *)
-  && match delete_of o with
-     | None => true
-     | Some (id, allow) =>
-         if prevalidated (ocode ob) || String.eqb id (mid pa) then true
-         else if id_in id pm then okc && negb (id_in id m') && (zlen m' =? zlen pm - 1)
-         else (ocode ob =? (if allow then 0 else cNotFound)) && emodes_eqb m' pm
-     end.
+  (ocode ob =? 0) && String.eqb (mid a') id && oemode_eqb (oret ob) (Some a')
+  && (String.eqb (mid a') (mid pa) || option_eqb Z.eqb (mstart a') (Some now))
+  && existsb (fun m => String.eqb (mid m) id && String.eqb (mtitle m) (mtitle a')
+                       && Bool.eqb (mnormal m) (mnormal a')) pm.
+
+(* the clauses of C19 on one observed step: before = (pm, pa, ch), after = ob *)
+Section clauses.
+Variables (pm : list emode) (pa : emode) (ch : bool) (now : Z) (o : op) (ob : obs).
+Let m' := omodes ob.
+Let a' := oactive ob.
+Let okc := ocode ob =? 0.
+
+(* 1. at most one mode is marked normal *)
+Definition k_normal : bool := zlen (normals m') <=? 1.
+(* 2. the active mode is never deleted *)
+Definition k_survive : bool := negb (id_in (mid pa) pm) || id_in (mid pa) m'.
+Definition k_delact : bool :=
+  match delete_of o with
+  | Some (id, _) => negb (String.eqb id (mid pa)) || prevalidated (ocode ob) || negb okc
+  | None => true
+  end.
+(* 3. once changed, the active mode refers to a mode that exists *)
+Definition k_exists : bool := negb (ch || (activates o && okc)) || id_in (mid a') m'.
+(* a failed call changes nothing; only activating calls change the active mode; they do not
+   change the modes *)
+Definition k_failnoop : bool := okc || (emodes_eqb m' pm && emode_eqb a' pa).
+Definition k_aframe : bool := activates o || emode_eqb a' pa.
+Definition k_mframe : bool := negb (activates o) || emodes_eqb m' pm.
+(* only a mode that exists can be made active (SetActiveMode stores the given message) *)
+Definition k_setactive : bool :=
+  match o with
+  | OSetActive m => if id_in (mid m) pm then okc && emode_eqb a' m else ocode ob =? cNotFound
+  | _ => true
+  end.
+(* NormalMode() is the mode marked normal *)
+Definition k_normalmode : bool := oemode_eqb (onormal ob) (hd_error (normals m')).
+(* 4. clearing selects the normal mode; 5. switching to a different mode stamps the clock *)
+Definition k_switch : bool :=
+  match switch_target o with
+  | None => true
+  | Some tgt =>
+      if prevalidated (ocode ob) then true else
+      let want := match tgt with
+                  | Some id => if id_in id pm then Some id else None
+                  | None => match normals pm with n :: _ => Some (mid n) | [] => None end
+                  end in
+      match want with
+      | None => ocode ob =? cNotFound
+      | Some id => sw_ok pm pa now ob id
+      end
+  end.
+(* 6. deleting an absent mode: NotFound unless allow-missing, then success; a present,
+      inactive mode is removed *)
+Definition k_delete : bool :=
+  match delete_of o with
+  | None => true
+  | Some (id, allow) =>
+      if prevalidated (ocode ob) || String.eqb id (mid pa) then true
+      else if id_in id pm then okc && negb (id_in id m') && (zlen m' =? zlen pm - 1)
+      else (ocode ob =? (if allow then 0 else cNotFound)) && emodes_eqb m' pm
+  end.
+
+Definition step_ok : bool :=
+  k_normal && k_survive && k_delact && k_exists && k_failnoop && k_aframe && k_mframe
+  && k_setactive && k_normalmode && k_switch && k_delete.
+End clauses.
 
 Fixpoint steps_ok (pm : list emode) (pa : emode) (ch : bool) (steps : list (Z * op * obs)) : bool :=
   match steps with
@@ -191,6 +246,20 @@ Fixpoint steps_ok (pm : list emode) (pa : emode) (ch : bool) (steps : list (Z * 
 
 Definition cop_activated (c : cop) : bool := activates (cop_op c) && (ccode c =? 0).
 
+(* the set of modes a subscriber reconstructs from the events *)
+Definition apply_event (l : list emode) (e : mevent) : list emode :=
+  match e with
+  | MAdd m => l ++ [m]
+  | MUpdate _ m => map (fun x => if String.eqb (mid x) (mid m) then m else x) l
+  | MRemove m => filter (fun x => negb (String.eqb (mid x) (mid m))) l
+  end.
+Fixpoint views_ok (l : list emode) (evs : list mevent) : bool :=
+  (zlen (normals l) <=? 1) &&
+  match evs with
+  | [] => true
+  | e :: r => views_ok (apply_event l e) r
+  end.
+
 Definition C19_ok (c : c19case) : bool :=
   match c with
   | KSeq initial o0 steps =>
@@ -200,6 +269,14 @@ Definition C19_ok (c : c19case) : bool :=
       (zlen (normals (omodes fin)) <=? 1)
       && (negb (existsb (existsb cop_activated) threads) || id_in (mid (oactive fin)) (omodes fin))
       && oemode_eqb (onormal fin) (hd_error (normals (omodes fin)))
+  | KStream initial steps mev aev =>
+      (* a subscriber never sees two normal modes; at the end the last active value it was told
+         about (if any call changed it) names a mode it still knows *)
+      views_ok [] mev
+      && match rev aev with
+         | last :: _ :: _ => id_in (mid last) (fold_left apply_event mev [])
+         | _ => true
+         end
   end.
 
 (* ------------------------------------------------------------------ guard *)
@@ -218,6 +295,7 @@ Definition C19_guard (c : c19case) : bool :=
   match c with
   | KSeq initial _ steps => initial_ok initial && forallb (fun p => op_guard (snd (fst p))) steps
   | KConc initial _ threads _ => initial_ok initial && forallb (forallb (fun c => op_guard (cop_op c))) threads
+  | KStream initial steps _ _ => initial_ok initial && forallb (fun p => op_guard (snd p)) steps
   end.
 
 Definition judge (c : c19case) : Z :=
